@@ -465,6 +465,22 @@ where R: LLLRing, for<'a> &'a R: LLLRingOps<R> {
     }
 }
 
+// Verification hook (guard: --cfg yui_verif). Lets a scalar type that is not in the
+// TypeId dispatch list of `preprocess` take the path the listed integer-like types take:
+// is_zero early-out, LLL-HNF preprocessing, elimination, diagonal normalisation. 
+#[cfg(yui_verif)]
+impl<R> SnfCalc<R>
+where R: LLLRing, for<'a> &'a R: LLLRingOps<R> {
+    pub fn process_with_lll(&mut self) { 
+        if self.target.is_zero() { 
+            return
+        }
+        self.preprocess_lll();
+        self.eliminate_all();
+        self.diag_normalize();
+    }
+}
+
 macro_rules! preprocess_lll_expand {
     ($any:ident) => {};
     ($any:ident, $t:ty $(,$next:ty)*) => {{
